@@ -135,6 +135,124 @@ def positional_axes(repo, rep, rule):
     return len(targets)
 
 
+_RAW_ATTRS = ("values", "data")
+_SCALARISERS = ("float", "int", "len", "bool", "str")
+_REDUCERS = ("sum", "max", "min", "mean", "item", "size", "ndim", "any", "all", "argmax", "argmin", "tolist")
+
+
+def raw_positional(repo, rep, rule):
+    """Label-level code (accessor methods, xrstats, regrid / smooth / scaled / waveage) never lets a bare ndarray taken out of a labelled
+    array meet labelled data positionally: (a) arithmetic between a raw vector / array (`x.values`, `x.data`, np.asarray(x)) and a
+    labelled array broadcasts against the LAST axis instead of by dimension name; (b) numpy calls with an integer axis= (or an
+    Ellipsis subscript) on such raw data pick whatever dimension happens to be stored there.  Both are right only for one stored
+    dimension order - and for a single spectrum but not for a dataset with leading dimensions stored last."""
+    targets = [fi for fi in repo.all_funcs() if (fi.cls is not None and fi.cls.name in ("SpecArray", "Partition"))
+               or fi.module.name in ("wavespectra.core.xrstats",)
+               or fi.qualname in ("wavespectra.core.utils.regrid_spec", "wavespectra.core.utils.smooth_spec",
+                                  "wavespectra.core.utils.scaled", "wavespectra.core.utils.waveage")]
+    nops = 0
+    for fi in targets:
+        lab_roots = {"self"} if fi.cls is not None else set(fi.params[:1])
+        env = {}
+
+        def kind(e):
+            # 'R' raw multi-element array from labelled data, 'L' labelled, 'S' scalar / unknown
+            if isinstance(e, ast.Constant):
+                return "S"
+            if isinstance(e, ast.Name):
+                if e.id in env:
+                    return env[e.id]
+                return "L" if e.id in lab_roots else ("P" if e.id in fi.params else "S")
+            if isinstance(e, ast.Attribute):
+                if e.attr in _RAW_ATTRS:
+                    b = e.value
+                    if isinstance(b, ast.Subscript) and not isinstance(b.slice, ast.Slice) and not (isinstance(b.slice, ast.Tuple)):
+                        return "S"         # x.freq[-1].values: one element
+                    return "R" if kind(b) in ("L", "R", "P") else "S"       # P: a parameter whose .values / .data is taken is a labelled array
+                if e.attr in _REDUCERS or e.attr in ("shape", "dims", "name", "attrs", "dtype", "sizes"):
+                    return "S"
+                return kind(e.value)
+            if isinstance(e, ast.Subscript):
+                k = kind(e.value)
+                if k == "R" and not isinstance(e.slice, (ast.Slice, ast.Tuple)):
+                    return "S"
+                return k
+            if isinstance(e, ast.Call):
+                nm = call_name(e) or ""
+                last = nm.split(".")[-1]
+                if last in _SCALARISERS:
+                    return "S"
+                if isinstance(e.func, ast.Attribute) and e.func.attr in _REDUCERS and not e.args and kind(e.func.value) == "R":
+                    return "S"
+                if isinstance(e.func, ast.Attribute) and e.func.attr in ("to_numpy",) and kind(e.func.value) in ("L", "R"):
+                    return "R"
+                if nm in ("np.asarray", "np.array", "numpy.asarray", "numpy.array") and e.args and kind(e.args[0]) in ("L", "R"):
+                    return "R"
+                ks = [kind(a) for a in e.args] + [kind(k_.value) for k_ in e.keywords]
+                if isinstance(e.func, ast.Attribute) and not nm.startswith(("np.", "numpy.", "xr.", "xarray.")):
+                    ks.append(kind(e.func.value))
+                if "L" in ks:
+                    return "L"
+                if "R" in ks:
+                    return "R"
+                return "S"
+            if isinstance(e, ast.BinOp):
+                return combine(e)
+            if isinstance(e, ast.UnaryOp):
+                return kind(e.operand)
+            if isinstance(e, ast.IfExp):
+                ks = {kind(e.body), kind(e.orelse)}
+                return "L" if "L" in ks else "R" if "R" in ks else "S"
+            if isinstance(e, (ast.Tuple, ast.List)):
+                ks = {kind(x) for x in e.elts}
+                return "L" if "L" in ks else "R" if "R" in ks else "S"
+            return "S"
+        found = []
+
+        def combine(e):
+            nonlocal nops
+            a, b = kind(e.left), kind(e.right)
+            if {a, b} == {"L", "R"}:
+                nops += 1
+                found.append(e)
+                return "L"
+            if "L" in (a, b):
+                nops += 1
+                return "L"
+            return "R" if "R" in (a, b) else "S"
+        for _ in range(2):
+            found.clear()
+            for s in ast.walk(fi.node):
+                if isinstance(s, ast.Assign) and len(s.targets) == 1 and isinstance(s.targets[0], ast.Name):
+                    env[s.targets[0].id] = kind(s.value)
+                elif isinstance(s, (ast.Return, ast.Expr, ast.AugAssign)) and getattr(s, "value", None) is not None:
+                    kind(s.value)
+        seen = set()
+        for e in found:
+            if id(e) in seen:
+                continue
+            seen.add(id(e))
+            rep.fail(rule, fi.file, e.lineno, fi.qualname, unparse(e)[:110],
+                     "a bare ndarray taken out of a labelled array (.values / .data / np.asarray) is combined arithmetically with labelled data: numpy "
+                     "broadcasting aligns it with the LAST stored axis, not with the dimension it came from, so the result is wrong whenever that "
+                     "dimension is not stored last (and silently so when the sizes happen to match)")
+        # (b) positional axis / Ellipsis on raw data
+        for c in ast.walk(fi.node):
+            if isinstance(c, ast.Call) and (call_name(c) or "").startswith(("np.", "numpy.")):
+                ax = kwarg(c, "axis")
+                if ax is not None and isinstance(repo.const(fi.module, ax), int) and any(kind(a) == "R" for a in c.args):
+                    nops += 1
+                    rep.fail(rule, fi.file, c.lineno, fi.qualname, unparse(c)[:110],
+                             "positional axis on the bare data of a labelled array: which dimension that is depends on the stored dimension order "
+                             "(and on which non-spectral dimensions the dataset has); use the named operation instead")
+            if isinstance(c, ast.Subscript) and kind(c.value) == "R" and any(isinstance(x, ast.Constant) and x.value is Ellipsis for x in ast.walk(c.slice)):
+                nops += 1
+                rep.fail(rule, fi.file, c.lineno, fi.qualname, unparse(c)[:110], "Ellipsis indexing on the bare data of a labelled array assumes a stored dimension order")
+    rep.ok(rule, "SpecArray / Partition / xrstats / regrid_spec / smooth_spec", f"{len(targets)} label-level functions, {nops} arithmetic operations on labelled data examined",
+           "no bare ndarray meets labelled data positionally")
+    return nops
+
+
 def run(repo, rep, tier):
     rep.rule("R-C05-1", "the C routine only ever sees C-contiguous float32 arrays (who-may-call + accepted idioms)")
     rep.rule("R-C05-2", "a difference of two stored directions at constant positions goes through the circular difference")
@@ -154,6 +272,10 @@ def run(repo, rep, tier):
     rep.ok("R-C05-3", "package", f"{nfunc} functions, {checked} order-sensitive operations on '{repo.attrs.DIRNAME}' examined",
            "positional ops only on data sorted in the same function; label assignments have matching provenance")
     rep.floor("R-C05-3", "order-sensitive operations examined", checked, 12)
+    rep.rule("R-C05-7", "label-level code never combines a bare ndarray taken out of a labelled array with labelled data (broadcast by position), "
+                        "nor applies a positional axis / Ellipsis index to such bare data")
+    nraw = raw_positional(repo, rep, "R-C05-7")
+    rep.floor("R-C05-7", "arithmetic operations on labelled data examined", nraw, 100)
     rep.rule("R-C05-6", "(shared with C04) the native neighbour table wraps the direction axis, so where the stored direction "
                         "sequence starts does not split a wave system at the seam")
     from . import c04
